@@ -407,6 +407,8 @@ EXPECT_ORIGIN = {
     'isinstance': 'builtin', 'ValueError': 'builtin', 'list': 'builtin', 'random': 'module random',
     'binarize': 'def bct/utils/other.py:binarize', 'normalize': 'def bct/utils/other.py:normalize',
     'invert': 'def bct/utils/other.py:invert', 'NotImplementedError': 'builtin',
+    'cuberoot': 'def bct/utils/miscellaneous_utilities.py:cuberoot',
+    'get_components': 'def bct/algorithms/clustering.py:get_components',
     'get_rng': 'def bct/utils/miscellaneous_utilities.py:get_rng',
     'pick_four_unique_nodes_quickly': 'def bct/utils/miscellaneous_utilities.py:pick_four_unique_nodes_quickly',
     'BCTParamError': 'class bct/utils/miscellaneous_utilities.py:BCTParamError',
@@ -576,6 +578,13 @@ def lean_folded_primitive(r, users):
         out.append('theorem prim_binarize_computes {n : Nat} (o : Bct.CoreIR.Util.Oracles) (W : AMat Rat n) (c : Bool) (ds : List Nat) :\n'
                    '    Bct.CoreIR.Util.runFn o prim_binarize [.mat (Bct.Cores.Util.embQ W), .sc (.bool c)] ds = .mat (Bct.Cores.Util.embQ (Bct.Thresh.binarize W)) :=\n'
                    '  Bct.Cores.Util.link_binarize o _ prim_binarize_ok rfl W c ds\n')
+    if r.name == 'cuberoot':
+        out.append('theorem prim_cuberoot_computes {n : Nat} (o : Bct.CoreIR.Util.Oracles) (x : Rat) (ds : List Nat) :\n'
+                   '    Bct.CoreIR.Util.runFn (n := n) o prim_cuberoot [.sc (.rat x)] ds =\n'
+                   '      .vals [match o.cb (if x < 0 then -x else x) with\n'
+                   '             | some r => Bct.CoreIR.Util.SV.rat ((if x < 0 then -1 else if x = 0 then 0 else 1) * r)\n'
+                   '             | none => Bct.CoreIR.Util.SV.err] ds :=\n'
+                   '  Bct.Cores.Util.link_cuberoot o _ prim_cuberoot_ok rfl x ds\n')
     return out
 
 
@@ -2073,7 +2082,7 @@ def extract_comp(fn, path):
     return r
 
 
-def lean_comp(r, path, prim):
+def lean_comp(r, path, prim, rn=None):
     relb = os.path.basename(path)
     out = ['import BctVerif.Props.CoresComp',
            'import BctVerif.Props.CoresUtil',
@@ -2111,8 +2120,65 @@ def lean_comp(r, path, prim):
                '  link_get_components _ get_components_ok A\n')
     out.append('theorem get_components_model {n : Nat} (A : AMat Int n) (r : List Nat × List Nat) :\n'
                '    run ir_get_components A = .ok r ↔ getComponents A = .ok r :=\n  link_get_components_model _ get_components_ok A r\n')
+    if rn is not None:
+        out += lean_numcomp(rn)
     out.append('end Bct.Gen.CoresComp')
     return '\n'.join(out) + '\n'
+
+
+def extract_numcomp(fn, path):
+    """number_of_components: two statements (Model/CoreIRComp.lean: NumIR)"""
+    r = Routine(fn.name, path)
+    r.line = fn.lineno
+    a = fn.args
+    if len(a.args) != 1 or a.vararg or a.kwarg or a.kwonlyargs or a.defaults:
+        r.bad(fn, 'expected exactly one parameter without default')
+    f = {k: q('?') for k in ('param', 'discard', 'sizes', 'callee', 'arg', 'lenOf')}
+    f['param'] = q(a.args[0].arg if a.args else '?')
+    r.fields = f
+    body = body_wo_doc(fn)
+    r.parts = {'body': lines_of(body)}
+    r.counts = {'body': len(body)}
+    try:
+        if len(body) != 2:
+            raise Unrec(fn, 'expected exactly 2 statements, found %d' % len(body))
+        s0, s1 = body
+        t = s0.targets[0] if isinstance(s0, ast.Assign) and len(s0.targets) == 1 else None
+        v = s0.value if t is not None else None
+        if not (isinstance(t, ast.Tuple) and len(t.elts) == 2 and all(isinstance(e, ast.Name) for e in t.elts)
+                and isinstance(v, ast.Call) and isinstance(v.func, ast.Name) and len(v.args) == 1 and not v.keywords
+                and isinstance(v.args[0], ast.Name)):
+            raise Unrec(s0, 'expected `_, csizes = get_components(A)`')
+        f['discard'], f['sizes'], f['callee'], f['arg'] = q(t.elts[0].id), q(t.elts[1].id), q(v.func.id), q(v.args[0].id)
+        rv = s1.value if isinstance(s1, ast.Return) else None
+        if not (isinstance(rv, ast.Call) and isinstance(rv.func, ast.Name) and rv.func.id == 'len' and len(rv.args) == 1 and not rv.keywords
+                and isinstance(rv.args[0], ast.Name)):
+            raise Unrec(s1, 'expected `return len(csizes)`')
+        f['lenOf'] = q(rv.args[0].id)
+    except Unrec as e:
+        r.bad(e.node if hasattr(e.node, 'lineno') else fn, e.msg)
+    return r
+
+
+def lean_numcomp(r):
+    relb = os.path.basename(r.file)
+    f = r.fields or {k: q('?') for k in ('param', 'discard', 'sizes', 'callee', 'arg', 'lenOf')}
+    a, b = r.parts.get('body', (r.line, r.line))
+    out = []
+    for p in r.problems:
+        out.append('-- NOT RECOGNISED: ' + p.replace('\n', ' '))
+    out.append('/-- `number_of_components` (%s:%d) -/' % (relb, r.line))
+    out.append('def ir_number_of_components : NumIR :=\n  { recognised := %s, origins := %s,\n    %s }\n'
+               % ('true' if not r.problems else 'false', lean_origins(r),
+                  ', '.join('%s := %s' % (k, f[k]) for k in ('param', 'discard', 'sizes', 'callee', 'arg', 'lenOf'))))
+    out.append('theorem number_of_components_ok : numOk ir_number_of_components = true := by\n  first | decide | fail "number_of_components_ok: '
+               'the statements extracted from number_of_components (%s:%d-%d) %s"\n'
+               % (relb, a, b, 'were not all recognised by translate/cores.py' if r.problems else 'are not the expected program'))
+    out.append('theorem number_of_components_computes {n : Nat} (A : AMat Int n) :\n'
+               '    runNum ir_number_of_components ir_get_components A = match numberOfComponents A with\n'
+               '      | .ok k => .ok k\n      | .error _ => .error "BCTParamError" :=\n'
+               '  link_number_of_components _ number_of_components_ok _ get_components_ok A\n')
+    return out
 
 
 def family_comp():
@@ -2128,10 +2194,20 @@ def family_comp():
         except Exception as e:  # noqa — an extractor crash must not look like success
             r = Routine(name, path); r.problems.append('%s: extractor raised %s: %s' % (name, type(e).__name__, e))
     prim = fold_util_primitive(path, 'binarize')
-    return {'module': 'BctVerif.Gen.CoresComp', 'file': 'CoresComp.lean', 'text': lean_comp(r, path, prim), 'sources': [path],
+    name2 = 'number_of_components'
+    if name2 not in fns:
+        rn = Routine(name2, path); rn.problems.append('%s: %s' % (name2, err or 'function not found in ' + path))
+    else:
+        try:
+            rn = extract_numcomp(fns[name2], path)
+            check_header(rn, fns[name2], fns)
+        except Exception as e:  # noqa — an extractor crash must not look like success
+            rn = Routine(name2, path); rn.problems.append('%s: extractor raised %s: %s' % (name2, type(e).__name__, e))
+    return {'module': 'BctVerif.Gen.CoresComp', 'file': 'CoresComp.lean', 'text': lean_comp(r, path, prim, rn), 'sources': [path],
             'routines': {r.name: dict(getattr(r, 'counts', {}), line=r.line, recognised=not r.problems),
+                         rn.name: dict(getattr(rn, 'counts', {}), line=rn.line, recognised=not rn.problems),
                          'binarize (called by get_components)': dict(line=prim.line, file=rel(prim.file), recognised=not prim.problems)},
-            'problems': list(r.problems) + list(prim.problems)}
+            'problems': list(r.problems) + list(rn.problems) + list(prim.problems)}
 
 
 # ====================================================================== family 'dijk'
@@ -2623,6 +2699,8 @@ class BinX:
             if (isinstance(f, ast.Name) and f.id == 'binarize' and len(node.args) == 1 and len(node.keywords) == 1
                     and isinstance(kw(node, 'copy'), ast.Constant) and kw(node, 'copy').value is True):
                 return '(.binarize %s)' % self.ex(node.args[0])
+            if isinstance(f, ast.Name) and f.id == 'binarize' and len(node.args) == 1 and not node.keywords:
+                return '(.binarizeD %s)' % self.ex(node.args[0])
             a = np_call(node, 'dot', 2)
             if a and not node.keywords and all(isinstance(x, ast.Name) for x in a):
                 return '(.dot %s %s)' % (q(a[0].id), q(a[1].id))
@@ -2630,6 +2708,12 @@ class BinX:
             if (a and not node.keywords and isinstance(a[0], ast.Call) and isinstance(a[0].func, ast.Name) and a[0].func.id == 'len'
                     and len(a[0].args) == 1 and isinstance(a[0].args[0], ast.Name) and not a[0].keywords):
                 return '(.eyeLen %s)' % q(a[0].args[0].id)
+            a = np_call(node, 'logical_not', 1)
+            if a and not node.keywords:
+                return '(.lnot %s)' % self.ex(a[0])
+        if (isinstance(node, ast.BinOp) and isinstance(node.op, ast.Div) and isinstance(node.left, ast.Constant)
+                and type(node.left.value) is int and node.left.value == 1):
+            return '(.recip %s)' % self.ex(node.right)
         raise Unrec(node, 'unrecognised expression %s' % src_of(node))
 
     def stmt(self, st):
@@ -2642,7 +2726,8 @@ class BinX:
                 e = self.ex(v)
                 self.scalars.discard(t.id)
                 return '.bind %s %s' % (q(t.id), e)
-            if isinstance(t, ast.Subscript) and isinstance(t.value, ast.Name) and isinstance(t.slice, ast.Compare):
+            if (isinstance(t, ast.Subscript) and isinstance(t.value, ast.Name)
+                    and (isinstance(t.slice, ast.Compare) or np_call(t.slice, 'logical_not', 1))):
                 return '.setMask %s %s %s' % (q(t.value.id), self.ex(t.slice), self.ex(v))
         if isinstance(st, ast.AugAssign) and isinstance(st.op, ast.Add) and isinstance(st.target, ast.Name):
             if st.target.id in self.scalars:
@@ -3568,6 +3653,252 @@ def extract_ebc(fn, path):
     return r
 
 
+class WeiX(EbcX):
+    """expression / statement mapping for betweenness_wei / edge_betweenness_wei (Model/CoreIRBwei.lean: SEx, Stmt, Cond):
+    the mapping of edge_betweenness_bin plus infinite distances, the boolean vector `S`, matrix cells and rows"""
+
+    def sex(self, node):
+        if (isinstance(node, ast.Subscript) and self.is_(node.value, 'mat') and isinstance(node.slice, ast.Tuple)
+                and len(node.slice.elts) == 2 and not any(isinstance(e, ast.Slice) for e in node.slice.elts)):
+            return '(.at2 %s %s %s)' % (q(node.value.id), self.sex(node.slice.elts[0]), self.sex(node.slice.elts[1]))
+        return EbcX.sex(self, node)
+
+    def min_sel(self, node):
+        """np.min(d[s]) -> (d, s)"""
+        a = np_call(node, 'min', 1)
+        if (a and not node.keywords and isinstance(a[0], ast.Subscript) and self.is_(a[0].value, 'vec') and self.is_(a[0].slice, 'bvec')):
+            return a[0].value.id, a[0].slice.id
+        return None
+
+    def cond(self, node):
+        if isinstance(node, ast.Compare) and len(node.ops) == 1:
+            l, r_ = node.left, node.comparators[0]
+            if (isinstance(node.ops[0], ast.Eq) and isinstance(l, ast.Attribute) and l.attr == 'size' and isinstance(l.value, ast.Subscript)
+                    and self.is_(l.value.value, 'vec') and self.is_(l.value.slice, 'bvec') and const_int(r_) == 0):
+                return '(.selEmpty %s %s)' % (q(l.value.value.id), q(l.value.slice.id))
+            op = {ast.Lt: 'lt', ast.Eq: 'eq'}.get(type(node.ops[0]))
+            if op:
+                return '(.%s %s %s)' % (op, self.sex(l), self.sex(r_))
+        a = np_call(node, 'isinf', 1)
+        if a and not node.keywords:
+            ms = self.min_sel(a[0])
+            if ms:
+                return '(.minSelInf %s %s)' % (q(ms[0]), q(ms[1]))
+        raise Unrec(node, 'unrecognised test %s' % src_of(node))
+
+    def stmt(self, st):
+        if isinstance(st, ast.Assign) and len(st.targets) == 1:
+            t, v = st.targets[0], st.value
+            if isinstance(t, ast.Name):
+                x = t.id
+                a = np_call(v, 'tile', 2)
+                if a and not v.keywords and is_np(a[0], 'inf'):
+                    if self.is_(a[1], 'sc'):
+                        self.sort[x] = 'vec'
+                        return '.tileInf %s %s false' % (q(x), q(a[1].id))
+                    if isinstance(a[1], ast.Tuple) and len(a[1].elts) == 1 and self.is_(a[1].elts[0], 'sc'):
+                        self.sort[x] = 'vec'
+                        return '.tileInf %s %s true' % (q(x), q(a[1].elts[0].id))
+                a = np_call(v, 'ones', 1)
+                if (a and len(v.keywords) == 1 and isinstance(kw(v, 'dtype'), ast.Name) and kw(v, 'dtype').id == 'bool'
+                        and isinstance(a[0], ast.Tuple) and len(a[0].elts) == 1 and self.is_(a[0].elts[0], 'sc')):
+                    self.sort[x] = 'bvec'
+                    return '.onesB %s %s' % (q(x), q(a[0].elts[0].id))
+                if isinstance(v, ast.List) and len(v.elts) == 1:
+                    e = self.sex(v.elts[0])
+                    self.sort[x] = 'lst'
+                    return '.single %s %s' % (q(x), e)
+                if np_call(v, 'array', 1):
+                    raise Unrec(st, 'unrecognised statement %s' % src_of(st))
+            if isinstance(t, ast.Subscript) and isinstance(t.value, ast.Name):
+                m, ix = t.value.id, t.slice
+                if self.sort.get(m) == 'bvec' and self.is_(ix, 'lst') and const_int(v) is not None:
+                    return '.clearB %s %s %s' % (q(m), q(ix.id), lint(const_int(v)))
+                if (self.sort.get(m) == 'mat' and isinstance(ix, ast.Tuple) and len(ix.elts) == 2 and full_slice(ix.elts[1])
+                        and not isinstance(ix.elts[0], ast.Slice) and const_int(v) is not None):
+                    return '.setRow %s %s %s' % (q(m), self.sex(ix.elts[0]), lint(const_int(v)))
+            if isinstance(t, ast.Tuple) and len(t.elts) == 1:
+                t0 = t.elts[0]
+                a = np_call(v, 'where', 1)
+                if a and not v.keywords:
+                    c = a[0]
+                    if (isinstance(t0, ast.Name) and isinstance(c, ast.Compare) and len(c.ops) == 1 and isinstance(c.ops[0], ast.Eq)
+                            and self.is_(c.left, 'vec')):
+                        ms = self.min_sel(c.comparators[0])
+                        if ms:
+                            self.sort[t0.id] = 'lst'
+                            return '.whereEqMin %s %s %s %s' % (q(t0.id), q(c.left.id), q(ms[0]), q(ms[1]))
+                    if (isinstance(t0, ast.Subscript) and self.is_(t0.value, 'ivec') and isinstance(t0.slice, ast.Slice)
+                            and t0.slice.lower is None and t0.slice.step is None and t0.slice.upper is not None):
+                        b = np_call(c, 'isinf', 1)
+                        if b and not c.keywords and self.is_(b[0], 'vec'):
+                            return '.fillPrefixInf %s %s %s' % (q(t0.value.id), self.sex(t0.slice.upper), q(b[0].id))
+                        raise Unrec(st, 'unrecognised statement %s' % src_of(st))
+                    if np_call(c, 'any', 1):
+                        raise Unrec(st, 'unrecognised statement %s' % src_of(st))
+        return EbcX.stmt(self, st)
+
+
+WEI_FIELDS = dict(param=q('?'), pre='[]', srcVar=q('?'), srcN=q('?'), init='[]', head='[]', vVar=q('?'), vIter=q('?'), visit='[]',
+                  wVar=q('?'), wIter=q('?'), relaxPre='[]', c1='(.lt (.lit 0) (.lit 0))', s1='[]', c2='(.lt (.lit 0) (.lit 0))', s2='[]',
+                  exit1='(.lt (.lit 0) (.lit 0))', exit2='(.lt (.lit 0) (.lit 0))', fill='[]', next='[]', mid='[]', bwVar=q('?'), bwVec=q('?'),
+                  bwHi='(.lit 0)', acc='[]', bvVar=q('?'), bvMat=q('?'), bvRow='(.lit 0)', dep='[]', ret='[]')
+WEI_ORDER = ['param', 'pre', 'srcVar', 'srcN', 'init', 'head', 'vVar', 'vIter', 'visit', 'wVar', 'wIter', 'relaxPre', 'c1', 's1', 'c2', 's2',
+             'exit1', 'exit2', 'fill', 'next', 'mid', 'bwVar', 'bwVec', 'bwHi', 'acc', 'bvVar', 'bvMat', 'bvRow', 'dep', 'ret']
+
+
+def extract_wei(fn, path):
+    r = Routine(fn.name, path)
+    r.line = fn.lineno
+    a = fn.args
+    if len(a.args) != 1 or a.vararg or a.kwarg or a.kwonlyargs or a.defaults:
+        r.bad(fn, 'expected exactly one parameter without default')
+    f = dict(WEI_FIELDS)
+    f['param'] = q(a.args[0].arg if a.args else '?')
+    r.fields = f
+    r.counts = {}
+    body = body_wo_doc(fn)
+    r.parts = {'body': lines_of(body)}
+    x = WeiX(a.args[0].arg if a.args else '?')
+    ctl = (ast.For, ast.While, ast.If, ast.Break)
+
+    def block(key, sts):
+        out = []
+        for st in sts:
+            try:
+                out.append(x.stmt(st))
+            except Unrec as e:
+                r.bad(e.node if hasattr(e.node, 'lineno') else st, e.msg)
+        f[key] = '[' + ',\n      '.join(out) + ']'
+        r.counts[key] = len(sts)
+
+    def guarded(key, fun, node):
+        try:
+            f[key] = fun(node)
+        except Unrec as e:
+            r.bad(e.node if hasattr(e.node, 'lineno') else node, e.msg)
+
+    def shape(node, msg):
+        r.bad(node, msg)
+        return r
+
+    def loop_var(lp, key):
+        if not isinstance(lp.target, ast.Name) or lp.orelse:
+            r.bad(lp, 'unrecognised loop header for %s' % src_of(lp.target))
+            return
+        f[key] = q(lp.target.id)
+        x.sort[lp.target.id] = 'sc'
+
+    def simple(sts):
+        return not any(isinstance(st, ctl) for st in sts)
+
+    if (len(body) < 2 or not isinstance(body[-2], ast.For) or not isinstance(body[-1], ast.Return) or not simple(body[:-2])):
+        return shape(fn, 'expected statements, one `for` loop, `return`')
+    block('pre', body[:-2])
+    src = body[-2]
+    it = src.iter
+    if (isinstance(it, ast.Call) and isinstance(it.func, ast.Name) and it.func.id == 'range' and len(it.args) == 1 and not it.keywords
+            and x.is_(it.args[0], 'sc')):
+        f['srcN'] = q(it.args[0].id)
+    else:
+        r.bad(src, 'unrecognised loop range %s' % src_of(it))
+    loop_var(src, 'srcVar')
+    rv = body[-1].value
+    if isinstance(rv, ast.Name):
+        ret = [rv.id]
+    elif isinstance(rv, ast.Tuple) and len(rv.elts) == 2 and all(isinstance(e, ast.Name) for e in rv.elts):
+        ret = [e.id for e in rv.elts]
+    else:
+        ret = None
+        r.bad(body[-1], 'unrecognised return value %s' % src_of(rv))
+    sb = src.body
+    wl = [i for i, st in enumerate(sb) if isinstance(st, ast.While)]
+    if (len(wl) != 1 or len(sb) < wl[0] + 2 or not isinstance(sb[-1], ast.For) or not simple(sb[:wl[0]] + sb[wl[0] + 1:-1])):
+        return shape(src, 'expected statements, `while`, statements, `for` in the body of the source loop')
+    wi = wl[0]
+    block('init', sb[:wi])
+    w = sb[wi]
+    if not (isinstance(w.test, ast.Constant) and w.test.value is True and not w.orelse):
+        r.bad(w, 'unrecognised loop test %s' % src_of(w.test))
+    fl = [i for i, st in enumerate(w.body) if isinstance(st, ast.For)]
+    if len(fl) != 1 or len(w.body) < fl[0] + 3 or not simple(w.body[:fl[0]]):
+        return shape(w, 'expected statements, one `for` loop, two `if … break`, statements in the body of the `while` loop')
+    block('head', w.body[:fl[0]])
+    lv = w.body[fl[0]]
+    if x.is_(lv.iter, 'lst'):
+        f['vIter'] = q(lv.iter.id)
+    else:
+        r.bad(lv, 'unrecognised iterable %s' % src_of(lv.iter))
+    loop_var(lv, 'vVar')
+    if not lv.body or not isinstance(lv.body[-1], ast.For) or not simple(lv.body[:-1]):
+        return shape(lv, 'expected statements, one `for` loop in the body of the node loop')
+    block('visit', lv.body[:-1])
+    lw = lv.body[-1]
+    if x.is_(lw.iter, 'lst'):
+        f['wIter'] = q(lw.iter.id)
+    else:
+        r.bad(lw, 'unrecognised iterable %s' % src_of(lw.iter))
+    loop_var(lw, 'wVar')
+    if not lw.body or not isinstance(lw.body[-1], ast.If) or not simple(lw.body[:-1]):
+        return shape(lw, 'expected statements and one `if … elif …` in the body of the neighbour loop')
+    block('relaxPre', lw.body[:-1])
+    br = lw.body[-1]
+    if (len(br.orelse) != 1 or not isinstance(br.orelse[0], ast.If) or br.orelse[0].orelse or not simple(br.body)
+            or not simple(br.orelse[0].body)):
+        return shape(br, 'expected `if …: … elif …: …` with simple statements and no `else`')
+    guarded('c1', x.cond, br.test)
+    block('s1', br.body)
+    guarded('c2', x.cond, br.orelse[0].test)
+    block('s2', br.orelse[0].body)
+    e1, e2 = w.body[fl[0] + 1], w.body[fl[0] + 2]
+    if not (isinstance(e1, ast.If) and not e1.orelse and len(e1.body) == 1 and isinstance(e1.body[0], ast.Break)):
+        return shape(e1, 'expected `if …: break`')
+    guarded('exit1', x.cond, e1.test)
+    if not (isinstance(e2, ast.If) and not e2.orelse and e2.body and isinstance(e2.body[-1], ast.Break) and simple(e2.body[:-1])):
+        return shape(e2, 'expected `if …: …; break`')
+    guarded('exit2', x.cond, e2.test)
+    block('fill', e2.body[:-1])
+    if not simple(w.body[fl[0] + 3:]):
+        return shape(w, 'expected simple statements at the end of the `while` loop')
+    block('next', w.body[fl[0] + 3:])
+    block('mid', sb[wi + 1:-1])
+    bw = sb[-1]
+    it = bw.iter
+    if (isinstance(it, ast.Subscript) and x.is_(it.value, 'ivec') and isinstance(it.slice, ast.Slice) and it.slice.lower is None
+            and it.slice.step is None and it.slice.upper is not None):
+        f['bwVec'] = q(it.value.id)
+        guarded('bwHi', x.sex, it.slice.upper)
+    else:
+        r.bad(bw, 'unrecognised iterable %s' % src_of(it))
+    loop_var(bw, 'bwVar')
+    if not bw.body or not isinstance(bw.body[-1], ast.For) or not simple(bw.body[:-1]):
+        return shape(bw, 'expected statements, one `for` loop in the body of the back-propagation loop')
+    block('acc', bw.body[:-1])
+    bv = bw.body[-1]
+    it = bv.iter
+    ok = False
+    if isinstance(it, ast.Subscript) and const_int(it.slice) == 0:
+        c = np_call(it.value, 'where', 1)
+        row = x.row_of(c[0]) if c and not it.value.keywords else None
+        if row:
+            f['bvMat'] = q(row[0])
+            guarded('bvRow', x.sex, row[1])
+            ok = True
+    if not ok:
+        r.bad(bv, 'unrecognised iterable %s' % src_of(it))
+    loop_var(bv, 'bvVar')
+    if not simple(bv.body):
+        return shape(bv, 'expected simple statements in the body of the predecessor loop')
+    block('dep', bv.body)
+    if ret:
+        sorts = [x.sort.get(n_) for n_ in ret]
+        if sorts in (['vec'], ['mat', 'vec']):
+            f['ret'] = lst(q(n_) for n_ in ret)
+        else:
+            r.bad(body[-1], 'unrecognised return value %s' % src_of(rv))
+    return r
+
+
 BETW_FIELDS = {'param': q('?'), 'pre': '[]', 'cond': q('?'), 'body': '[]', 'mid': '[]', 'loopVar': q('?'), 'loopHi': q('?'),
                'loopLo': '0', 'loopStep': '0', 'back': '[]', 'ret': q('?'), 'retAxis': '99'}
 
@@ -3633,12 +3964,32 @@ def extract_betw(fn, path):
     return r
 
 
-def lean_betw(r, path, r2=None):
+def lean_wei(r, ref, link, concl):
+    relb = os.path.basename(r.file)
+    f = r.fields or dict(WEI_FIELDS)
+    a, b = r.parts.get('body', (r.line, r.line))
+    out = []
+    for p in r.problems:
+        out.append('-- NOT RECOGNISED: ' + p.replace('\n', ' '))
+    out.append('/-- `%s` (%s:%d) -/' % (r.name, relb, r.line))
+    out.append('def ir_%s : Bwei.WeiIR :=\n  { name := %s, recognised := %s, origins := %s,\n    %s }\n'
+               % (r.name, q(r.name), 'true' if not r.problems else 'false', lean_origins(r),
+                  ',\n    '.join('%s := %s' % (k, f[k]) for k in WEI_ORDER)))
+    out.append('theorem %s_ok : Bwei.weiOk Bwei.%s ir_%s = true := by\n  first | decide | fail "%s_ok: the statements extracted from %s '
+               '(%s:%d-%d) %s"\n' % (r.name, ref, r.name, r.name, r.name, relb, a, b,
+                                     'were not all recognised by translate/cores.py' if r.problems else 'are not the expected program'))
+    out.append('theorem %s_computes {n : Nat} (G : AMat Nat n) :\n    Bwei.run ir_%s (n + 1) (Bct.Cores.Bwei.embM G) =\n%s :=\n'
+               '  Bct.Cores.Bwei.%s _ %s_ok G\n' % (r.name, r.name, concl, link, r.name))
+    return out
+
+
+def lean_betw(r, path, r2=None, rw=()):
     relb = os.path.basename(path)
     f = r.fields or dict(BETW_FIELDS)
     a, b = r.parts.get('body', (r.line, r.line))
     out = ['import BctVerif.Props.CoresBetw',
            'import BctVerif.Props.CoresEbc',
+           'import BctVerif.Props.CoresBwei',
            '/-!',
            '# GENERATED by translate/cores.py (family betw) — do not edit.  Re-emitted from the current source on every check run.',
            'source: %s' % path,
@@ -3682,6 +4033,8 @@ def lean_betw(r, path, r2=None):
                    '      | .ok r => some r\n'
                    '      | .error _ => none :=\n'
                    '  Bct.Cores.Ebc.link_edge_betweenness_bin _ edge_betweenness_bin_ok G\n')
+    for rr, ref, link, concl in rw:
+        out += lean_wei(rr, ref, link, concl)
     out.append('end Bct.Gen.CoresBetw')
     return '\n'.join(out) + '\n'
 
@@ -3707,15 +4060,873 @@ def family_betw():
             check_header(r2, fns[name2], fns)
         except Exception as e:  # noqa — an extractor crash must not look like success
             r2 = Routine(name2, path); r2.problems.append('%s: extractor raised %s: %s' % (name2, type(e).__name__, e))
-    return {'module': 'BctVerif.Gen.CoresBetw', 'file': 'CoresBetw.lean', 'text': lean_betw(r, path, r2), 'sources': [path],
+    rw = []
+    for nm_, ref, link, concl in (
+            ('betweenness_wei', 'refNode', 'link_betweenness_wei',
+             '      match betweennessWei G with\n      | .ok bc => some [.vec (Bct.Cores.Bwei.embR bc)]\n      | .error _ => none'),
+            ('edge_betweenness_wei', 'refEdge', 'link_edge_betweenness_wei',
+             '      match brandes true G with\n      | .ok r => some [.mat (Bct.Cores.Bwei.embRM r.1), .vec (Bct.Cores.Bwei.embR r.2)]\n'
+             '      | .error _ => none')):
+        if nm_ not in fns:
+            rr = Routine(nm_, path); rr.problems.append('%s: %s' % (nm_, err or 'function not found in ' + path))
+        else:
+            try:
+                rr = extract_wei(fns[nm_], path)
+                check_header(rr, fns[nm_], fns)
+            except Exception as e:  # noqa — an extractor crash must not look like success
+                rr = Routine(nm_, path); rr.problems.append('%s: extractor raised %s: %s' % (nm_, type(e).__name__, e))
+        rw.append((rr, ref, link, concl))
+    routines = {r.name: dict(getattr(r, 'counts', {}), line=r.line, recognised=not r.problems),
+                r2.name: dict(getattr(r2, 'counts', {}), line=r2.line, recognised=not r2.problems)}
+    for rr, _, _, _ in rw:
+        routines[rr.name] = dict(getattr(rr, 'counts', {}), line=rr.line, recognised=not rr.problems)
+    return {'module': 'BctVerif.Gen.CoresBetw', 'file': 'CoresBetw.lean', 'text': lean_betw(r, path, r2, rw), 'sources': [path],
+            'routines': routines, 'problems': list(r.problems) + list(r2.problems) + [p for rr, _, _, _ in rw for p in rr.problems]}
+
+
+# ====================================================================== family 'clust'
+
+class ClustX:
+    """expression / statement mapping for the straight-line clustering / transitivity routines (Model/CoreIRClust.lean: Ex, Stmt)"""
+
+    def ex(self, node):
+        if isinstance(node, ast.Constant) and type(node.value) is int and node.value >= 0:
+            return '(.lit %d)' % node.value
+        if is_np(node, 'inf'):
+            return '.infLit'
+        if isinstance(node, ast.Name):
+            return '(.ref %s)' % q(node.id)
+        if isinstance(node, ast.Attribute) and node.attr == 'T':
+            return '(.tr %s)' % self.ex(node.value)
+        if isinstance(node, ast.BinOp):
+            op = {ast.Add: 'add', ast.Sub: 'sub', ast.Mult: 'mul', ast.Div: 'div'}.get(type(node.op))
+            if op:
+                return '(.%s %s %s)' % (op, self.ex(node.left), self.ex(node.right))
+        if isinstance(node, ast.Compare) and len(node.ops) == 1 and isinstance(node.ops[0], ast.Eq):
+            return '(.eq %s %s)' % (self.ex(node.left), self.ex(node.comparators[0]))
+        if isinstance(node, ast.Call):
+            f = node.func
+            is_float = lambda k: isinstance(k, ast.Name) and k.id == 'float'  # noqa: E731
+            if (isinstance(f, ast.Attribute) and f.attr == 'astype' and len(node.args) == 1 and not node.keywords and is_float(node.args[0])):
+                return '(.astypeFloat %s)' % self.ex(f.value)
+            for fn_, con in (('array', 'arrayFloat'), ('asarray', 'asarrayFloat')):
+                a = np_call(node, fn_, 1)
+                if a and len(node.keywords) == 1 and is_float(kw(node, 'dtype')):
+                    return '(.%s %s)' % (con, self.ex(a[0]))
+            if isinstance(f, ast.Name) and f.id == 'cuberoot' and len(node.args) == 1 and not node.keywords:
+                return '(.cbrt %s)' % self.ex(node.args[0])
+            for fn_, con in (('logical_not', 'lnot'), ('diag', 'diag'), ('trace', 'trace')):
+                a = np_call(node, fn_, 1)
+                if a and not node.keywords:
+                    return '(.%s %s)' % (con, self.ex(a[0]))
+            if isinstance(f, ast.Name) and f.id == 'len' and len(node.args) == 1 and not node.keywords:
+                return '(.len %s)' % self.ex(node.args[0])
+            a = np_call(node, 'eye', 1)
+            if a and not node.keywords and isinstance(a[0], ast.Name):
+                return '(.eye %s)' % q(a[0].id)
+            a = np_call(node, 'ones', 1)
+            if (a and not node.keywords and isinstance(a[0], ast.Tuple) and len(a[0].elts) == 1 and isinstance(a[0].elts[0], ast.Name)):
+                return '(.ones1 %s)' % q(a[0].elts[0].id)
+            a = np_call(node, 'dot', 2)
+            if a and not node.keywords:
+                return '(.dot %s %s)' % (self.ex(a[0]), self.ex(a[1]))
+            a = np_call(node, 'sum', 1)
+            if a and not node.keywords:
+                return '(.sumAll %s)' % self.ex(a[0])
+            if a and len(node.keywords) == 1 and const_int(kw(node, 'axis')) is not None and const_int(kw(node, 'axis')) >= 0:
+                return '(.sumAx %s %d)' % (self.ex(a[0]), const_int(kw(node, 'axis')))
+        raise Unrec(node, 'unrecognised expression %s' % src_of(node))
+
+    def stmt(self, st):
+        if isinstance(st, ast.Assign) and len(st.targets) == 1:
+            t, v = st.targets[0], st.value
+            if isinstance(t, ast.Name):
+                e = self.ex(v)
+                return '.bind %s %s' % (q(t.id), e)
+            if isinstance(t, ast.Subscript) and isinstance(t.value, ast.Name):
+                a = np_call(t.slice, 'where', 1)
+                if a and not t.slice.keywords:
+                    return '.setWhere %s %s %s' % (q(t.value.id), self.ex(a[0]), self.ex(v))
+        raise Unrec(st, 'unrecognised statement %s' % src_of(st))
+
+
+CLUST_ARR = [('clustering_coef_bd', 'refCcBd', 'link_cc_bd', 'A', '.vec ((ccBd A).map optV)'),
+             ('clustering_coef_wd', 'refCcWd', 'link_cc_wd', 'W', '.vec ((ccWd W (AMat.map cb W)).map optV)'),
+             ('clustering_coef_wu', 'refCcWu', 'link_cc_wu', 'W', '.vec ((ccWu W (AMat.map cb W)).map optV)'),
+             ('transitivity_bd', 'refTransBd', 'link_trans_bd', 'A', '.sc (optV (transBd A))'),
+             ('transitivity_bu', 'refTransBu', 'link_trans_bu', 'A', '.sc (optV (transBu A))'),
+             ('transitivity_wd', 'refTransWd', 'link_trans_wd', 'W', '.sc (optV (transWd W (AMat.map cb W)))'),
+             ('transitivity_wu', 'refTransWu', 'link_trans_wu', 'W', '.sc (optV (transWu W (AMat.map cb W)))')]
+
+
+def extract_clust_arr(fn, path):
+    r = Routine(fn.name, path)
+    r.line = fn.lineno
+    a = fn.args
+    if len(a.args) != 1 or a.vararg or a.kwarg or a.kwonlyargs or a.defaults:
+        r.bad(fn, 'expected exactly one parameter without default')
+    f = {'param': q(a.args[0].arg if a.args else '?'), 'body': '[]', 'ret': '(.lit 0)'}
+    r.fields = f
+    body = body_wo_doc(fn)
+    r.parts = {'body': lines_of(body)}
+    if not body or not isinstance(body[-1], ast.Return) or body[-1].value is None:
+        r.bad(fn, 'expected statements and a final `return <expression>`')
+        return r
+    x = ClustX()
+    out = []
+    for st in body[:-1]:
+        try:
+            out.append(x.stmt(st))
+        except Unrec as e:
+            r.bad(e.node if hasattr(e.node, 'lineno') else st, e.msg)
+    f['body'] = '[' + ',\n      '.join(out) + ']'
+    try:
+        f['ret'] = x.ex(body[-1].value)
+    except Unrec as e:
+        r.bad(e.node if hasattr(e.node, 'lineno') else body[-1], e.msg)
+    r.counts = {'body': len(body) - 1}
+    return r
+
+
+BU_FIELDS = ['param', 'dim', 'dimOf', 'out', 'outDim', 'node', 'nodeN', 'nb', 'nbMat', 'nbRow', 'cnt', 'cntOf', 'testVar', 'testLit',
+             'sub', 'subMat', 'subRows', 'subCols', 'setVec', 'setIdx', 'sumOf', 'den', 'ret']
+
+
+def extract_clust_bu(fn, path):
+    """clustering_coef_bu: statements matched positionally (Model/CoreIRClust.lean: BuIR)"""
+    r = Routine(fn.name, path)
+    r.line = fn.lineno
+    a = fn.args
+    if len(a.args) != 1 or a.vararg or a.kwarg or a.kwonlyargs or a.defaults:
+        r.bad(fn, 'expected exactly one parameter without default')
+    f = {k: q('?') for k in BU_FIELDS}
+    f['testLit'] = '0'
+    f['den'] = '(.lit 0)'
+    f['param'] = q(a.args[0].arg if a.args else '?')
+    r.fields = f
+    body = body_wo_doc(fn)
+    r.parts = {'body': lines_of(body)}
+
+    def nm(node, what):
+        if isinstance(node, ast.Name):
+            return q(node.id)
+        raise Unrec(node, 'expected a name as %s, found %s' % (what, src_of(node)))
+
+    def len_of(st, what):
+        v = st.value if isinstance(st, ast.Assign) and len(st.targets) == 1 else None
+        if not (isinstance(v, ast.Call) and isinstance(v.func, ast.Name) and v.func.id == 'len' and len(v.args) == 1 and not v.keywords):
+            raise Unrec(st, 'expected `%s`' % what)
+        return nm(st.targets[0], 'target'), nm(v.args[0], 'argument of len')
+
+    def kex(node):
+        if isinstance(node, ast.Name):
+            return '(.var %s)' % q(node.id)
+        if isinstance(node, ast.Constant) and type(node.value) is int and node.value >= 0:
+            return '(.lit %d)' % node.value
+        if isinstance(node, ast.BinOp) and isinstance(node.op, (ast.Sub, ast.Mult)):
+            return '(.%s %s %s)' % ('sub' if isinstance(node.op, ast.Sub) else 'mul', kex(node.left), kex(node.right))
+        raise Unrec(node, 'unrecognised integer expression %s' % src_of(node))
+    try:
+        if len(body) != 4:
+            raise Unrec(fn, 'expected exactly 4 statements, found %d' % len(body))
+        s0, s1, s2, s3 = body
+        f['dim'], f['dimOf'] = len_of(s0, 'n = len(G)')
+        z = np_call(s1.value, 'zeros', 1) if isinstance(s1, ast.Assign) and len(s1.targets) == 1 else None
+        if not (z and not s1.value.keywords and isinstance(z[0], ast.Tuple) and len(z[0].elts) == 1):
+            raise Unrec(s1, 'expected `C = np.zeros((n,))`')
+        f['out'], f['outDim'] = nm(s1.targets[0], 'target'), nm(z[0].elts[0], 'dimension')
+        it = s2.iter if isinstance(s2, ast.For) else None
+        if not (it is not None and not s2.orelse and isinstance(it, ast.Call) and isinstance(it.func, ast.Name) and it.func.id == 'range'
+                and len(it.args) == 1 and not it.keywords and len(s2.body) == 3):
+            raise Unrec(s2, 'expected `for u in range(n):` with three statements')
+        f['node'], f['nodeN'] = nm(s2.target, 'loop variable'), nm(it.args[0], 'range bound')
+        b0, b1, b2 = s2.body
+        w = (np_call(b0.value, 'where', 1) if isinstance(b0, ast.Assign) and len(b0.targets) == 1 and isinstance(b0.targets[0], ast.Tuple)
+             and len(b0.targets[0].elts) == 1 else None)
+        if not (w and not b0.value.keywords and isinstance(w[0], ast.Subscript) and isinstance(w[0].slice, ast.Tuple)
+                and len(w[0].slice.elts) == 2 and full_slice(w[0].slice.elts[1])):
+            raise Unrec(b0, 'expected `V, = np.where(G[u, :])`')
+        f['nb'], f['nbMat'], f['nbRow'] = nm(b0.targets[0].elts[0], 'target'), nm(w[0].value, 'matrix'), nm(w[0].slice.elts[0], 'row')
+        f['cnt'], f['cntOf'] = len_of(b1, 'k = len(V)')
+        if not (isinstance(b2, ast.If) and not b2.orelse and isinstance(b2.test, ast.Compare) and len(b2.test.ops) == 1
+                and isinstance(b2.test.ops[0], ast.GtE) and const_int(b2.test.comparators[0]) is not None
+                and const_int(b2.test.comparators[0]) >= 0 and len(b2.body) == 2):
+            raise Unrec(b2, 'expected `if k >= 2:` with two statements and no `else`')
+        f['testVar'], f['testLit'] = nm(b2.test.left, 'tested name'), '%d' % const_int(b2.test.comparators[0])
+        c0, c1 = b2.body
+        v = c0.value if isinstance(c0, ast.Assign) and len(c0.targets) == 1 else None
+        ix = np_call(v.slice, 'ix_', 2) if isinstance(v, ast.Subscript) else None
+        if not (ix and not v.slice.keywords):
+            raise Unrec(c0, 'expected `S = G[np.ix_(V, V)]`')
+        f['sub'], f['subMat'], f['subRows'], f['subCols'] = nm(c0.targets[0], 'target'), nm(v.value, 'matrix'), nm(ix[0], 'rows'), nm(ix[1], 'columns')
+        t = c1.targets[0] if isinstance(c1, ast.Assign) and len(c1.targets) == 1 else None
+        v = c1.value if t is not None else None
+        sm = np_call(v.left, 'sum', 1) if isinstance(v, ast.BinOp) and isinstance(v.op, ast.Div) else None
+        if not (isinstance(t, ast.Subscript) and not isinstance(t.slice, (ast.Tuple, ast.Slice)) and sm and not v.left.keywords):
+            raise Unrec(c1, 'expected `C[u] = np.sum(S) / (k * k - k)`')
+        f['setVec'], f['setIdx'], f['sumOf'], f['den'] = nm(t.value, 'vector'), nm(t.slice, 'index'), nm(sm[0], 'argument of np.sum'), kex(v.right)
+        if not (isinstance(s3, ast.Return) and s3.value is not None):
+            raise Unrec(s3, 'expected `return C`')
+        f['ret'] = nm(s3.value, 'returned value')
+    except Unrec as e:
+        r.bad(e.node if hasattr(e.node, 'lineno') else fn, e.msg)
+    r.counts = {'body': len(body)}
+    return r
+
+
+def lean_clust(rs, bu, path, prim):
+    relb = os.path.basename(path)
+    out = ['import BctVerif.Props.CoresClust',
+           'import BctVerif.Props.CoresUtil',
+           '/-!',
+           '# GENERATED by translate/cores.py (family clust) — do not edit.  Re-emitted from the current source on every check run.',
+           'source: %s' % path,
+           '-/',
+           'set_option linter.unusedTactic false',
+           'set_option linter.unreachableTactic false',
+           'namespace Bct.Gen.CoresClust',
+           'open Bct Bct.Cluster Bct.CoreIR.Clust Bct.Cores.Clust',
+           '']
+    out += lean_folded_primitive(prim, 'clustering_coef_wd, clustering_coef_wu, transitivity_wd, transitivity_wu')
+    for (name, ref, link, par, concl), r in zip(CLUST_ARR, rs):
+        f = r.fields or {'param': q('?'), 'body': '[]', 'ret': '(.lit 0)'}
+        a, b = r.parts.get('body', (r.line, r.line))
+        for p in r.problems:
+            out.append('-- NOT RECOGNISED: ' + p.replace('\n', ' '))
+        out.append('/-- `%s` (%s:%d) -/' % (name, relb, r.line))
+        out.append('def ir_%s : ArrIR :=\n  { name := %s, recognised := %s, origins := %s,\n    param := %s,\n    body := %s,\n    ret := %s }\n'
+                   % (name, q(name), 'true' if not r.problems else 'false', lean_origins(r), f['param'], f['body'], f['ret']))
+        out.append('theorem %s_ok : clustOk %s ir_%s = true := by\n  first | decide | fail "%s_ok: the statements extracted from %s '
+                   '(%s:%d-%d) %s"\n' % (name, ref, name, name, name, relb, a, b,
+                                         'were not all recognised by translate/cores.py' if r.problems else 'are not the expected program'))
+        out.append('theorem %s_computes {n : Nat} (cb : Rat → Rat) (%s : AMat Rat n) :\n    run cb ir_%s (embA %s) = %s :=\n  %s _ %s_ok cb %s\n'
+                   % (name, par, name, par, concl, link, name, par))
+    f = bu.fields or {}
+    a, b = bu.parts.get('body', (bu.line, bu.line))
+    for p in bu.problems:
+        out.append('-- NOT RECOGNISED: ' + p.replace('\n', ' '))
+    out.append('/-- `clustering_coef_bu` (%s:%d) -/' % (relb, bu.line))
+    out.append('def ir_clustering_coef_bu : BuIR :=\n  { recognised := %s, origins := %s,\n    %s }\n'
+               % ('true' if not bu.problems else 'false', lean_origins(bu), ', '.join('%s := %s' % (k, f.get(k, q('?'))) for k in BU_FIELDS)))
+    out.append('theorem clustering_coef_bu_ok : buOk ir_clustering_coef_bu = true := by\n  first | decide | fail "clustering_coef_bu_ok: the '
+               'statements extracted from clustering_coef_bu (%s:%d-%d) %s"\n'
+               % (relb, a, b, 'were not all recognised by translate/cores.py' if bu.problems else 'are not the expected program'))
+    out.append('theorem clustering_coef_bu_computes {n : Nat} (G : AMat Rat n) :\n    runBu ir_clustering_coef_bu (embA G) = some ((ccBu G).map optV) :=\n'
+               '  link_cc_bu _ clustering_coef_bu_ok G\n')
+    out.append('end Bct.Gen.CoresClust')
+    return '\n'.join(out) + '\n'
+
+
+def family_clust():
+    path = os.path.join(common.REPO, 'bct', 'algorithms', 'clustering.py')
+    fns, err = parse_functions(path)
+
+    def one(name, extractor):
+        if name not in fns:
+            r = Routine(name, path); r.problems.append('%s: %s' % (name, err or 'function not found in ' + path))
+            return r
+        try:
+            r = extractor(fns[name], path)
+            check_header(r, fns[name], fns)
+        except Exception as e:  # noqa — an extractor crash must not look like success
+            r = Routine(name, path); r.problems.append('%s: extractor raised %s: %s' % (name, type(e).__name__, e))
+        return r
+    rs = [one(c[0], extract_clust_arr) for c in CLUST_ARR]
+    bu = one('clustering_coef_bu', extract_clust_bu)
+    prim = fold_util_primitive(path, 'cuberoot')
+    routines = {r.name: dict(getattr(r, 'counts', {}), line=r.line, recognised=not r.problems) for r in rs + [bu]}
+    routines['cuberoot (called by the weighted routines)'] = dict(line=prim.line, file=rel(prim.file), recognised=not prim.problems)
+    return {'module': 'BctVerif.Gen.CoresClust', 'file': 'CoresClust.lean', 'text': lean_clust(rs, bu, path, prim), 'sources': [path],
+            'routines': routines, 'problems': [p for r in rs + [bu, prim] for p in r.problems]}
+
+
+# ====================================================================== family 'char'
+
+class CharX:
+    """expression / statement mapping for charpath (Model/CoreIRChar.lean: Ex, Simple, Stmt)"""
+
+    def __init__(self, flags):
+        self.flags = set(flags)
+
+    def ex(self, node):
+        if isinstance(node, ast.Constant) and type(node.value) is int and node.value >= 0:
+            return '(.lit %d)' % node.value
+        if is_np(node, 'nan'):
+            return '.nanLit'
+        if isinstance(node, ast.Name) and node.id not in self.flags:
+            return '(.ref %s)' % q(node.id)
+        if isinstance(node, ast.BinOp) and isinstance(node.op, ast.Div):
+            return '(.div %s %s)' % (self.ex(node.left), self.ex(node.right))
+        if (isinstance(node, ast.Subscript) and not isinstance(node.slice, (ast.Tuple, ast.Slice, ast.Constant, ast.Name))):
+            return '(.select %s %s)' % (self.ex(node.value), self.ex(node.slice))
+        if isinstance(node, ast.Call):
+            f = node.func
+            if isinstance(f, ast.Attribute) and not is_np(f, f.attr) and not (isinstance(f.value, ast.Attribute) and is_np(f.value, 'ma')):
+                if f.attr in ('copy', 'ravel') and not node.args and not node.keywords:
+                    return '(.%s %s)' % (f.attr, self.ex(f.value))
+                if (f.attr == 'max' and not node.args and len(node.keywords) == 1 and const_int(kw(node, 'axis')) is not None
+                        and const_int(kw(node, 'axis')) >= 0):
+                    return '(.maxAxis %s %d)' % (self.ex(f.value), const_int(kw(node, 'axis')))
+            for fn_, con in (('isnan', 'isnan'), ('isinf', 'isinf'), ('logical_not', 'lnot'), ('mean', 'mean'), ('min', 'npMin'),
+                             ('max', 'npMax'), ('array', 'npArray')):
+                a = np_call(node, fn_, 1)
+                if a and not node.keywords:
+                    return '(.%s %s)' % (con, self.ex(a[0]))
+            if (isinstance(f, ast.Attribute) and f.attr == 'masked_where' and isinstance(f.value, ast.Attribute) and is_np(f.value, 'ma')
+                    and len(node.args) == 2 and not node.keywords):
+                return '(.maskedWhere %s %s)' % (self.ex(node.args[0]), self.ex(node.args[1]))
+        raise Unrec(node, 'unrecognised expression %s' % src_of(node))
+
+    def simple(self, st):
+        if (isinstance(st, ast.Expr) and np_call(st.value, 'fill_diagonal', 2) and not st.value.keywords
+                and isinstance(st.value.args[0], ast.Name)):
+            return '.fillDiag %s %s' % (q(st.value.args[0].id), self.ex(st.value.args[1]))
+        if (isinstance(st, ast.Assign) and len(st.targets) == 1 and isinstance(st.targets[0], ast.Subscript)
+                and isinstance(st.targets[0].value, ast.Name) and not isinstance(st.targets[0].slice, (ast.Tuple, ast.Slice))):
+            t = st.targets[0]
+            return '.setMask %s %s %s' % (q(t.value.id), self.ex(t.slice), self.ex(st.value))
+        raise Unrec(st, 'unrecognised statement %s' % src_of(st))
+
+    def stmt(self, st):
+        if isinstance(st, ast.Assign) and len(st.targets) == 1 and isinstance(st.targets[0], ast.Name):
+            if st.targets[0].id in self.flags:
+                raise Unrec(st, 'assignment to the flag %s' % st.targets[0].id)
+            return '.bind %s %s' % (q(st.targets[0].id), self.ex(st.value))
+        if (isinstance(st, ast.If) and not st.orelse and isinstance(st.test, ast.UnaryOp) and isinstance(st.test.op, ast.Not)
+                and isinstance(st.test.operand, ast.Name) and st.test.operand.id in self.flags):
+            return '.ifNot %s [%s]' % (q(st.test.operand.id), ', '.join(self.simple(x) for x in st.body))
+        raise Unrec(st, 'unrecognised statement %s' % src_of(st))
+
+
+def extract_char(fn, path):
+    r = Routine(fn.name, path)
+    r.line = fn.lineno
+    a = fn.args
+    if a.vararg or a.kwarg or a.kwonlyargs or getattr(a, 'posonlyargs', []):
+        r.bad(fn, 'unexpected parameter kinds')
+    names = [x.arg for x in a.args]
+    f = {'params': lst(q(x) for x in names), 'defaults': lean_defaults(defaults_of(fn)), 'body': '[]', 'ret': '[]'}
+    r.fields = f
+    body = body_wo_doc(fn)
+    r.parts = {'body': lines_of(body)}
+    if not body or not isinstance(body[-1], ast.Return) or not isinstance(body[-1].value, ast.Tuple) \
+            or not all(isinstance(e, ast.Name) for e in body[-1].value.elts):
+        r.bad(fn, 'expected statements and a final `return <name>, …`')
+        return r
+    x = CharX(names[1:])
+    out = []
+    for st in body[:-1]:
+        try:
+            out.append(x.stmt(st))
+        except Unrec as e:
+            r.bad(e.node if hasattr(e.node, 'lineno') else st, e.msg)
+    f['body'] = '[' + ',\n      '.join(out) + ']'
+    f['ret'] = lst(q(e.id) for e in body[-1].value.elts)
+    r.counts = {'body': len(body) - 1}
+    return r
+
+
+def lean_char(r, path):
+    relb = os.path.basename(path)
+    f = r.fields or {'params': '[]', 'defaults': '[]', 'body': '[]', 'ret': '[]'}
+    a, b = r.parts.get('body', (r.line, r.line))
+    out = ['import BctVerif.Props.CoresChar',
+           '/-!',
+           '# GENERATED by translate/cores.py (family char) — do not edit.  Re-emitted from the current source on every check run.',
+           'source: %s' % path,
+           '-/',
+           'set_option linter.unusedTactic false',
+           'set_option linter.unreachableTactic false',
+           'namespace Bct.Gen.CoresChar',
+           'open Bct Bct.Dist Bct.CoreIR.Char Bct.Cores.Char',
+           '']
+    for p in r.problems:
+        out.append('-- NOT RECOGNISED: ' + p.replace('\n', ' '))
+    out.append('/-- `charpath` (%s:%d) -/' % (relb, r.line))
+    out.append('def ir_charpath : CharIR :=\n  { recognised := %s, origins := %s,\n    params := %s, defaults := %s,\n    body := %s,\n    ret := %s }\n'
+               % ('true' if not r.problems else 'false', lean_origins(r), f['params'], f['defaults'], f['body'], f['ret']))
+    out.append('theorem charpath_ok : charOk ir_charpath = true := by\n  first | decide | fail "charpath_ok: the statements extracted from '
+               'charpath (%s:%d-%d) %s"\n' % (relb, a, b, 'were not all recognised by translate/cores.py' if r.problems
+                                              else 'are not the expected program'))
+    out.append('theorem charpath_computes {n : Nat} (D : AMat Ext n) (a b : Bool) :\n'
+               '    run ir_charpath (embD D) a b = some [ .sc (optC (charpath D a b).1), .sc (optC (charpath D a b).2),\n'
+               '      .vec (Vector.ofFn fun i => .ext (eccOf D a b i)), .sc (rd (radiusDiameter D a b) Prod.fst),\n'
+               '      .sc (rd (radiusDiameter D a b) Prod.snd) ] :=\n'
+               '  link_charpath _ charpath_ok D a b\n')
+    out.append('end Bct.Gen.CoresChar')
+    return '\n'.join(out) + '\n'
+
+
+def family_char():
+    path = os.path.join(common.REPO, 'bct', 'algorithms', 'distance.py')
+    fns, err = parse_functions(path)
+    name = 'charpath'
+    if name not in fns:
+        r = Routine(name, path); r.problems.append('%s: %s' % (name, err or 'function not found in ' + path))
+    else:
+        try:
+            r = extract_char(fns[name], path)
+            check_header(r, fns[name], fns)
+        except Exception as e:  # noqa — an extractor crash must not look like success
+            r = Routine(name, path); r.problems.append('%s: extractor raised %s: %s' % (name, type(e).__name__, e))
+    return {'module': 'BctVerif.Gen.CoresChar', 'file': 'CoresChar.lean', 'text': lean_char(r, path), 'sources': [path],
+            'routines': {r.name: dict(getattr(r, 'counts', {}), line=r.line, recognised=not r.problems)},
+            'problems': list(r.problems)}
+
+
+# ====================================================================== family 'eff'
+
+def kex_expr(node):
+    """integer expression over names (Model/CoreIREff.lean: KEx)"""
+    if isinstance(node, ast.Name):
+        return '(.var %s)' % q(node.id)
+    if isinstance(node, ast.Constant) and type(node.value) is int and node.value >= 0:
+        return '(.lit %d)' % node.value
+    if isinstance(node, ast.BinOp) and isinstance(node.op, (ast.Sub, ast.Mult)):
+        return '(.%s %s %s)' % ('sub' if isinstance(node.op, ast.Sub) else 'mul', kex_expr(node.left), kex_expr(node.right))
+    raise Unrec(node, 'unrecognised integer expression %s' % src_of(node))
+
+
+EFF_FIELDS = ['innerName', 'dim', 'dimOf', 'flag', 'res', 'callee', 'arg', 'out', 'sumOf', 'den', 'ret']
+
+
+def extract_eff(fn, path):
+    """efficiency_bin: the nested distance_inv (BinIR), the statements around `if local:`, the `else` branch (EffIR)"""
+    r = Routine(fn.name, path)
+    r.line = fn.lineno
+    a = fn.args
+    if a.vararg or a.kwarg or a.kwonlyargs or getattr(a, 'posonlyargs', []):
+        r.bad(fn, 'unexpected parameter kinds')
+    f = {k: q('?') for k in EFF_FIELDS}
+    f['den'] = '(.lit 0)'
+    f['params'] = lst(q(x.arg) for x in a.args)
+    f['defaults'] = lean_defaults(defaults_of(fn))
+    f['pre'] = '[]'
+    f['inner'] = '{ recognised := false, origins := [], param := "?", pre := [], cond := "?", body := [], post := [], ret := "?" }'
+    r.fields = f
+    body = body_wo_doc(fn)
+    r.parts = {'body': lines_of(body)}
+    r.counts = {}
+
+    def nm(node, what):
+        if isinstance(node, ast.Name):
+            return q(node.id)
+        raise Unrec(node, 'expected a name as %s, found %s' % (what, src_of(node)))
+    try:
+        if (len(body) < 4 or not isinstance(body[0], ast.FunctionDef) or not isinstance(body[-1], ast.Return)
+                or not isinstance(body[-2], ast.If)):
+            raise Unrec(fn, 'expected the nested helper definition, statements, `if …: … else: …`, `return`')
+        g = body[0]
+        if g.decorator_list or g.args.vararg or g.args.kwarg or g.args.kwonlyargs or g.args.defaults:
+            r.bad(g, 'unexpected parameter kinds / decorators on the nested function')
+        inner = extract_bin(g, path)
+        for p_ in inner.problems:
+            r.problems.append(p_.replace(g.name + ':', fn.name + ': nested ' + g.name + ':', 1))
+        fi = inner.fields
+        f['innerName'] = q(g.name)
+        f['inner'] = ('{ recognised := %s, origins := [], param := %s,\n      pre := %s,\n      cond := %s,\n      body := %s,\n      post := %s,\n'
+                      '      ret := %s }' % ('true' if not inner.problems else 'false', fi['param'], fi['pre'], fi['cond'], fi['body'], fi['post'], fi['ret']))
+        r.counts.update({'inner_' + k: v for k, v in getattr(inner, 'counts', {}).items()})
+        mid = body[1:-2]
+        if not mid:
+            raise Unrec(fn, 'expected `n = len(G)` before the `if`')
+        x = BinX()
+        pre = []
+        for st in mid[:-1]:
+            try:
+                pre.append(x.stmt(st))
+            except Unrec as e:
+                r.bad(e.node if hasattr(e.node, 'lineno') else st, e.msg)
+        f['pre'] = '[' + ', '.join(pre) + ']'
+        s_n = mid[-1]
+        v = s_n.value if isinstance(s_n, ast.Assign) and len(s_n.targets) == 1 else None
+        if not (isinstance(v, ast.Call) and isinstance(v.func, ast.Name) and v.func.id == 'len' and len(v.args) == 1 and not v.keywords):
+            raise Unrec(s_n, 'expected `n = len(G)`')
+        f['dim'], f['dimOf'] = nm(s_n.targets[0], 'target'), nm(v.args[0], 'argument of len')
+        br = body[-2]
+        f['flag'] = nm(br.test, 'test of the `if`')
+        if len(br.orelse) != 2:
+            raise Unrec(br, 'expected two statements in the `else` branch')
+        e0, e1 = br.orelse
+        v = e0.value if isinstance(e0, ast.Assign) and len(e0.targets) == 1 else None
+        if not (isinstance(v, ast.Call) and isinstance(v.func, ast.Name) and len(v.args) == 1 and not v.keywords):
+            raise Unrec(e0, 'expected `e = distance_inv(G)`')
+        f['res'], f['callee'], f['arg'] = nm(e0.targets[0], 'target'), q(v.func.id), nm(v.args[0], 'argument')
+        v = e1.value if isinstance(e1, ast.Assign) and len(e1.targets) == 1 else None
+        sm = np_call(v.left, 'sum', 1) if isinstance(v, ast.BinOp) and isinstance(v.op, ast.Div) else None
+        if not (sm and not v.left.keywords):
+            raise Unrec(e1, 'expected `E = np.sum(e) / (n * n - n)`')
+        f['out'], f['sumOf'], f['den'] = nm(e1.targets[0], 'target'), nm(sm[0], 'argument of np.sum'), kex_expr(v.right)
+        if body[-1].value is None:
+            raise Unrec(body[-1], 'expected `return E`')
+        f['ret'] = nm(body[-1].value, 'returned value')
+        r.counts.update({'pre': len(mid) - 1, 'else': 2, 'if_branch_not_extracted': len(br.body)})
+    except Unrec as e:
+        r.bad(e.node if hasattr(e.node, 'lineno') else fn, e.msg)
+    return r
+
+
+def lean_eff(r, path, prim):
+    relb = os.path.basename(path)
+    f = r.fields
+    a, b = r.parts.get('body', (r.line, r.line))
+    out = ['import BctVerif.Props.CoresEff',
+           'import BctVerif.Props.CoresUtil',
+           '/-!',
+           '# GENERATED by translate/cores.py (family eff) — do not edit.  Re-emitted from the current source on every check run.',
+           'source: %s' % path,
+           '-/',
+           'set_option linter.unusedTactic false',
+           'set_option linter.unreachableTactic false',
+           'namespace Bct.Gen.CoresEff',
+           'open Bct Bct.Dist Bct.CoreIR.Bin Bct.CoreIR.Eff Bct.Cores.Bin Bct.Cores.Eff',
+           '']
+    out += lean_folded_primitive(prim, 'efficiency_bin')
+    for p in r.problems:
+        out.append('-- NOT RECOGNISED: ' + p.replace('\n', ' '))
+    out.append('/-- the nested function of `efficiency_bin` -/\ndef ir_efficiency_bin_inner : BinIR :=\n  %s\n' % f['inner'])
+    out.append('/-- `efficiency_bin` (%s:%d); the statements of the `if local:` branch are not extracted -/' % (relb, r.line))
+    out.append('def ir_efficiency_bin : EffIR :=\n  { recognised := %s, origins := %s,\n    params := %s, defaults := %s,\n    innerName := %s,\n'
+               '    inner := %s,\n    pre := %s,\n    %s }\n'
+               % ('true' if not r.problems else 'false', lean_origins(r), f['params'], f['defaults'], f['innerName'], 'ir_efficiency_bin_inner', f['pre'],
+                  ', '.join('%s := %s' % (k, f[k]) for k in EFF_FIELDS if k != 'innerName')))
+    out.append('theorem efficiency_bin_ok : effOk ir_efficiency_bin = true := by\n  first | decide | fail "efficiency_bin_ok: the statements '
+               'extracted from efficiency_bin (%s:%d-%d) %s"\n' % (relb, a, b, 'were not all recognised by translate/cores.py'
+                                                                     if r.problems else 'are not the expected program'))
+    out.append('theorem efficiency_bin_computes {n : Nat} (A : AMat Rat n) :\n'
+               '    (runEff ir_efficiency_bin (n * n + 2) (embA A)).map (fun o => o.map Ext.fin) = efficiencyBin A :=\n'
+               '  link_efficiency_bin _ efficiency_bin_ok A\n')
+    out.append('end Bct.Gen.CoresEff')
+    return '\n'.join(out) + '\n'
+
+
+def family_eff():
+    path = os.path.join(common.REPO, 'bct', 'algorithms', 'efficiency.py')
+    fns, err = parse_functions(path)
+    name = 'efficiency_bin'
+    if name not in fns:
+        r = Routine(name, path); r.problems.append('%s: %s' % (name, err or 'function not found in ' + path))
+        r.fields = None
+    else:
+        try:
+            r = extract_eff(fns[name], path)
+            check_header(r, fns[name], fns)
+        except Exception as e:  # noqa — an extractor crash must not look like success
+            r = Routine(name, path); r.problems.append('%s: extractor raised %s: %s' % (name, type(e).__name__, e))
+            r.fields = None
+    if not r.fields:
+        r.fields = {k: q('?') for k in EFF_FIELDS}
+        r.fields.update(den='(.lit 0)', params='[]', defaults='[]', pre='[]',
+                        inner='{ recognised := false, origins := [], param := "?", pre := [], cond := "?", body := [], post := [], ret := "?" }')
+    prim = fold_util_primitive(path, 'binarize')
+    return {'module': 'BctVerif.Gen.CoresEff', 'file': 'CoresEff.lean', 'text': lean_eff(r, path, prim), 'sources': [path],
             'routines': {r.name: dict(getattr(r, 'counts', {}), line=r.line, recognised=not r.problems),
-                         r2.name: dict(getattr(r2, 'counts', {}), line=r2.line, recognised=not r2.problems)},
-            'problems': list(r.problems) + list(r2.problems)}
+                         'binarize (called by efficiency_bin)': dict(line=prim.line, file=rel(prim.file), recognised=not prim.problems)},
+            'problems': list(r.problems) + list(prim.problems)}
+
+
+# ====================================================================== family 'walks'
+
+def extract_pagerank(fn, path):
+    """pagerank_centrality: whole body (Model/CoreIRWalks.lean: WStmt, PrIR); expressions are those of the clust family"""
+    r = Routine(fn.name, path)
+    r.line = fn.lineno
+    a = fn.args
+    if a.vararg or a.kwarg or a.kwonlyargs or getattr(a, 'posonlyargs', []):
+        r.bad(fn, 'unexpected parameter kinds')
+    f = {'params': lst(q(x.arg) for x in a.args), 'defaults': lean_defaults(defaults_of(fn)), 'imports': '[]', 'body': '[]', 'ret': '(.lit 0)'}
+    r.fields = f
+    body = body_wo_doc(fn)
+    r.parts = {'body': lines_of(body)}
+    if not body or not isinstance(body[-1], ast.Return) or body[-1].value is None:
+        r.bad(fn, 'expected statements and a final `return <expression>`')
+        return r
+    x = ClustX()
+    imports = {}
+    out = []
+
+    def one(st):
+        if isinstance(st, ast.ImportFrom) and len(st.names) == 1 and st.names[0].name != '*' and not out:
+            al = st.names[0]
+            if st.level == 0 and st.module and not st.module.split('.')[0] == 'bct':
+                org = 'external %s:%s' % (st.module, al.name)
+            else:
+                try:
+                    tp_ = target_path(path, st.level, st.module)
+                    org = origin_str(resolve(tp_, al.name)) if tp_ else 'external %s:%s' % (st.module, al.name)
+                except ResolveError as e:
+                    r.bad(st, 'cannot resolve the local import: %s' % e)
+                    org = 'unresolved'
+            imports[al.asname or al.name] = org
+            return None
+        if isinstance(st, ast.Assign) and len(st.targets) == 1:
+            t, v = st.targets[0], st.value
+            if isinstance(t, ast.Name):
+                if (isinstance(v, ast.Call) and isinstance(v.func, ast.Attribute) and v.func.attr == 'solve'
+                        and isinstance(v.func.value, ast.Name) and v.func.value.id in imports and len(v.args) == 2 and not v.keywords):
+                    return '.solve %s %s %s %s' % (q(t.id), q(v.func.value.id), x.ex(v.args[0]), x.ex(v.args[1]))
+                return '.bind %s %s' % (q(t.id), x.ex(v))
+            if (isinstance(t, ast.Subscript) and isinstance(t.value, ast.Name) and isinstance(t.slice, ast.Compare)):
+                return '.setMask %s %s %s' % (q(t.value.id), x.ex(t.slice), x.ex(v))
+        if isinstance(st, ast.AugAssign) and isinstance(st.op, ast.Div) and isinstance(st.target, ast.Name):
+            return '.augDiv %s %s' % (q(st.target.id), x.ex(st.value))
+        if (isinstance(st, ast.If) and isinstance(st.test, ast.Compare) and len(st.test.ops) == 1 and isinstance(st.test.ops[0], ast.Is)
+                and isinstance(st.test.left, ast.Name) and isinstance(st.test.comparators[0], ast.Constant)
+                and st.test.comparators[0].value is None and len(st.body) == 1 and len(st.orelse) == 1):
+            b0, b1 = st.body[0], st.orelse[0]
+            if (all(isinstance(b, ast.Assign) and len(b.targets) == 1 and isinstance(b.targets[0], ast.Name) for b in (b0, b1))
+                    and b0.targets[0].id == b1.targets[0].id):
+                return '.bindIfNone %s %s %s %s' % (q(b0.targets[0].id), q(st.test.left.id), x.ex(b0.value), x.ex(b1.value))
+        raise Unrec(st, 'unrecognised statement %s' % src_of(st))
+    for st in body[:-1]:
+        try:
+            t_ = one(st)
+            if t_ is not None:
+                out.append(t_)
+        except Unrec as e:
+            r.bad(e.node if hasattr(e.node, 'lineno') else st, e.msg)
+    f['body'] = '[' + ',\n      '.join(out) + ']'
+    f['imports'] = lean_defaults(sorted(imports.items()))
+    try:
+        f['ret'] = x.ex(body[-1].value)
+    except Unrec as e:
+        r.bad(e.node if hasattr(e.node, 'lineno') else body[-1], e.msg)
+    r.counts = {'body': len(body) - 1}
+    return r
+
+
+MFPT_FIELDS = ['param', 'pVar', 'sumOf', 'sumAxis', 'rhs', 'dim', 'dimOf', 'evals', 'evecs', 'eigOf', 'aux', 'auxOf', 'auxShift', 'idx', 'idxL',
+               'idxR', 'tolVec', 'tolIdx', 'tolNum', 'tolDen', 'exc', 'w', 'wMat', 'wIdx', 'w2', 'w2Num', 'w2Den', 'bigW', 'repOf', 'repN',
+               'repAxis', 'eye', 'eyeN', 'z', 'zI', 'zP', 'zW', 'out', 'outDiag', 'outN', 'outAxis', 'outSub', 'outDiv', 'ret']
+MFPT_NUM = {'sumAxis', 'auxShift', 'tolNum', 'tolDen', 'repAxis', 'outAxis'}
+
+
+def extract_mfpt(fn, path):
+    """mean_first_passage_time: thirteen statements matched positionally (Model/CoreIRWalks.lean: MfptIR)"""
+    from fractions import Fraction
+    r = Routine(fn.name, path)
+    r.line = fn.lineno
+    a = fn.args
+    if len(a.args) != 1 or a.vararg or a.kwarg or a.kwonlyargs or a.defaults:
+        r.bad(fn, 'expected exactly one parameter without default')
+    f = {k: ('99' if k in MFPT_NUM else q('?')) for k in MFPT_FIELDS}
+    f['param'] = q(a.args[0].arg if a.args else '?')
+    r.fields = f
+    body = body_wo_doc(fn)
+    r.parts = {'body': lines_of(body)}
+    r.counts = {'body': len(body)}
+
+    def nm(node, what):
+        if isinstance(node, ast.Name):
+            return q(node.id)
+        raise Unrec(node, 'expected a name as %s, found %s' % (what, src_of(node)))
+
+    def nat(node, what):
+        z = const_int(node)
+        if z is None or z < 0:
+            raise Unrec(node, 'expected a natural number as %s, found %s' % (what, src_of(node)))
+        return '%d' % z
+
+    def nplinalg(node, fn_, nargs):
+        if (isinstance(node, ast.Call) and isinstance(node.func, ast.Attribute) and node.func.attr == fn_
+                and is_np(node.func.value, 'linalg') and len(node.args) == nargs and not node.keywords):
+            return node.args
+        return None
+
+    def assign(st, what):
+        if isinstance(st, ast.Assign) and len(st.targets) == 1:
+            return st.targets[0], st.value
+        raise Unrec(st, 'expected `%s`' % what)
+
+    def repeat(node, what):
+        c = np_call(node, 'repeat', 3)
+        if not c or node.keywords:
+            raise Unrec(node, 'expected `%s`' % what)
+        return c
+    try:
+        if len(body) != 13:
+            raise Unrec(fn, 'expected exactly 13 statements, found %d' % len(body))
+        s0, s1, s2, s3, s4, s5, s6, s7, s8, s9, s10, s11, s12 = body
+        w0 = 'P = np.linalg.solve(np.diag(np.sum(adjacency, axis=1)), adjacency)'
+        t, v = assign(s0, w0)
+        sv = nplinalg(v, 'solve', 2)
+        dg = np_call(sv[0], 'diag', 1) if sv else None
+        sm = np_call(dg[0], 'sum', 1) if dg and not sv[0].keywords else None
+        if not (sm and len(dg[0].keywords) == 1 and kw(dg[0], 'axis') is not None):
+            raise Unrec(s0, 'expected `%s`' % w0)
+        f['pVar'], f['sumOf'], f['sumAxis'], f['rhs'] = nm(t, 'target'), nm(sm[0], 'summed matrix'), nat(kw(dg[0], 'axis'), 'axis'), nm(sv[1], 'right-hand side')
+        t, v = assign(s1, 'n = len(P)')
+        if not (isinstance(v, ast.Call) and isinstance(v.func, ast.Name) and v.func.id == 'len' and len(v.args) == 1 and not v.keywords):
+            raise Unrec(s1, 'expected `n = len(P)`')
+        f['dim'], f['dimOf'] = nm(t, 'target'), nm(v.args[0], 'argument of len')
+        t, v = assign(s2, 'D, V = np.linalg.eig(P.T)')
+        eg = nplinalg(v, 'eig', 1)
+        if not (isinstance(t, ast.Tuple) and len(t.elts) == 2 and eg and isinstance(eg[0], ast.Attribute) and eg[0].attr == 'T'):
+            raise Unrec(s2, 'expected `D, V = np.linalg.eig(P.T)`')
+        f['evals'], f['evecs'], f['eigOf'] = nm(t.elts[0], 'eigenvalues'), nm(t.elts[1], 'eigenvectors'), nm(eg[0].value, 'matrix')
+        t, v = assign(s3, 'aux = np.abs(D - 1)')
+        ab = np_call(v, 'abs', 1)
+        if not (ab and not v.keywords and isinstance(ab[0], ast.BinOp) and isinstance(ab[0].op, ast.Sub)):
+            raise Unrec(s3, 'expected `aux = np.abs(D - 1)`')
+        f['aux'], f['auxOf'], f['auxShift'] = nm(t, 'target'), nm(ab[0].left, 'eigenvalues'), nat(ab[0].right, 'shift')
+        t, v = assign(s4, 'index = np.where(aux == aux.min())[0]')
+        wh = np_call(v.value, 'where', 1) if isinstance(v, ast.Subscript) and const_int(v.slice) == 0 else None
+        c = wh[0] if wh and not v.value.keywords else None
+        if not (isinstance(c, ast.Compare) and len(c.ops) == 1 and isinstance(c.ops[0], ast.Eq) and isinstance(c.comparators[0], ast.Call)
+                and isinstance(c.comparators[0].func, ast.Attribute) and c.comparators[0].func.attr == 'min'
+                and not c.comparators[0].args and not c.comparators[0].keywords):
+            raise Unrec(s4, 'expected `index = np.where(aux == aux.min())[0]`')
+        f['idx'], f['idxL'], f['idxR'] = nm(t, 'target'), nm(c.left, 'compared vector'), nm(c.comparators[0].func.value, 'minimised vector')
+        if not (isinstance(s5, ast.If) and not s5.orelse and len(s5.body) == 1 and isinstance(s5.body[0], ast.Raise) and s5.body[0].cause is None
+                and isinstance(s5.body[0].exc, ast.Call) and isinstance(s5.body[0].exc.func, ast.Name)
+                and isinstance(s5.test, ast.Compare) and len(s5.test.ops) == 1 and isinstance(s5.test.ops[0], ast.Gt)
+                and isinstance(s5.test.left, ast.Subscript) and isinstance(s5.test.comparators[0], ast.Constant)
+                and type(s5.test.comparators[0].value) in (int, float)):
+            raise Unrec(s5, 'expected `if aux[index] > 10e-3: raise ValueError(…)`')
+        tol = Fraction(repr(s5.test.comparators[0].value))
+        f['tolVec'], f['tolIdx'] = nm(s5.test.left.value, 'tested vector'), nm(s5.test.left.slice, 'tested index')
+        f['tolNum'], f['tolDen'], f['exc'] = '%d' % tol.numerator, '%d' % tol.denominator, q(s5.body[0].exc.func.id)
+        t, v = assign(s6, 'w = V[:, index].T')
+        sub = v.value if isinstance(v, ast.Attribute) and v.attr == 'T' else None
+        if not (isinstance(sub, ast.Subscript) and isinstance(sub.slice, ast.Tuple) and len(sub.slice.elts) == 2 and full_slice(sub.slice.elts[0])):
+            raise Unrec(s6, 'expected `w = V[:, index].T`')
+        f['w'], f['wMat'], f['wIdx'] = nm(t, 'target'), nm(sub.value, 'eigenvector matrix'), nm(sub.slice.elts[1], 'column index')
+        t, v = assign(s7, 'w = w / np.sum(w)')
+        sm = np_call(v.right, 'sum', 1) if isinstance(v, ast.BinOp) and isinstance(v.op, ast.Div) else None
+        if not (sm and not v.right.keywords):
+            raise Unrec(s7, 'expected `w = w / np.sum(w)`')
+        f['w2'], f['w2Num'], f['w2Den'] = nm(t, 'target'), nm(v.left, 'numerator'), nm(sm[0], 'summed vector')
+        t, v = assign(s8, 'W = np.real(np.repeat(w, n, 0))')
+        re_ = np_call(v, 'real', 1)
+        if not (re_ and not v.keywords):
+            raise Unrec(s8, 'expected `W = np.real(np.repeat(w, n, 0))`')
+        rp = repeat(re_[0], 'W = np.real(np.repeat(w, n, 0))')
+        f['bigW'], f['repOf'], f['repN'], f['repAxis'] = nm(t, 'target'), nm(rp[0], 'repeated vector'), nm(rp[1], 'count'), nat(rp[2], 'axis')
+        t, v = assign(s9, 'I = np.eye(n)')
+        ey = np_call(v, 'eye', 1)
+        if not (ey and not v.keywords):
+            raise Unrec(s9, 'expected `I = np.eye(n)`')
+        f['eye'], f['eyeN'] = nm(t, 'target'), nm(ey[0], 'dimension')
+        t, v = assign(s10, 'Z = np.linalg.inv(I - P + W)')
+        iv = nplinalg(v, 'inv', 1)
+        e = iv[0] if iv else None
+        if not (isinstance(e, ast.BinOp) and isinstance(e.op, ast.Add) and isinstance(e.left, ast.BinOp) and isinstance(e.left.op, ast.Sub)):
+            raise Unrec(s10, 'expected `Z = np.linalg.inv(I - P + W)`')
+        f['z'], f['zI'], f['zP'], f['zW'] = nm(t, 'target'), nm(e.left.left, 'identity'), nm(e.left.right, 'transition matrix'), nm(e.right, 'W')
+        w11 = 'mfpt = (np.repeat(np.atleast_2d(np.diag(Z)), n, 0) - Z) / W'
+        t, v = assign(s11, w11)
+        num = v.left if isinstance(v, ast.BinOp) and isinstance(v.op, ast.Div) else None
+        if not (isinstance(num, ast.BinOp) and isinstance(num.op, ast.Sub)):
+            raise Unrec(s11, 'expected `%s`' % w11)
+        rp = repeat(num.left, w11)
+        a2 = np_call(rp[0], 'atleast_2d', 1)
+        dg = np_call(a2[0], 'diag', 1) if a2 and not rp[0].keywords else None
+        if not (dg and not a2[0].keywords):
+            raise Unrec(s11, 'expected `%s`' % w11)
+        f['out'], f['outDiag'], f['outN'], f['outAxis'] = nm(t, 'target'), nm(dg[0], 'inverse'), nm(rp[1], 'count'), nat(rp[2], 'axis')
+        f['outSub'], f['outDiv'] = nm(num.right, 'subtracted matrix'), nm(v.right, 'divisor')
+        if not (isinstance(s12, ast.Return) and s12.value is not None):
+            raise Unrec(s12, 'expected `return mfpt`')
+        f['ret'] = nm(s12.value, 'returned value')
+    except Unrec as e:
+        r.bad(e.node if hasattr(e.node, 'lineno') else fn, e.msg)
+    return r
+
+
+def lean_walks(r, path, rm=None):
+    relb = os.path.basename(path)
+    f = r.fields or {'params': '[]', 'defaults': '[]', 'imports': '[]', 'body': '[]', 'ret': '(.lit 0)'}
+    a, b = r.parts.get('body', (r.line, r.line))
+    out = ['import BctVerif.Props.CoresWalks',
+           '/-!',
+           '# GENERATED by translate/cores.py (family walks) — do not edit.  Re-emitted from the current source on every check run.',
+           'source: %s' % path,
+           '-/',
+           'set_option linter.unusedTactic false',
+           'set_option linter.unreachableTactic false',
+           'namespace Bct.Gen.CoresWalks',
+           'open Bct Bct.Walks Bct.CoreIR.Walks Bct.Cores.Walks',
+           'open Bct.CoreIR.Clust (Ex)',
+           'open Bct.Cores.Clust (embA)',
+           '']
+    for p in r.problems:
+        out.append('-- NOT RECOGNISED: ' + p.replace('\n', ' '))
+    out.append('/-- `pagerank_centrality` (%s:%d) -/' % (relb, r.line))
+    out.append('def ir_pagerank_centrality : PrIR :=\n  { recognised := %s, origins := %s,\n    params := %s, defaults := %s, imports := %s,\n'
+               '    body := %s,\n    ret := %s }\n'
+               % ('true' if not r.problems else 'false', lean_origins(r), f['params'], f['defaults'], f['imports'], f['body'], f['ret']))
+    out.append('theorem pagerank_centrality_ok : prOk ir_pagerank_centrality = true := by\n  first | decide | fail "pagerank_centrality_ok: the '
+               'statements extracted from pagerank_centrality (%s:%d-%d) %s"\n'
+               % (relb, a, b, 'were not all recognised by translate/cores.py' if r.problems else 'are not the expected program'))
+    out.append('theorem pagerank_centrality_computes {n : Nat} (sol : Vector Rat n) (A : QMat n) (d : Rat) (f : Option (Vector Int n)) (hn : 0 < n) :\n'
+               '    run sol ir_pagerank_centrality (embA A) d (f.map embI) =\n'
+               '      match prior f with\n'
+               '      | .error _ => none\n'
+               '      | .ok nf =>\n'
+               '        if solves (prMat A d) sol (Vector.ofFn fun i => (1 - d) * nf[i]) then\n'
+               '          (if fsum (fun i : Fin n => sol[i]) = 0 then none else some (Vector.ofFn fun i => sol[i] / fsum fun i : Fin n => sol[i]))\n'
+               '        else none :=\n'
+               '  link_pagerank _ pagerank_centrality_ok sol A d f hn\n')
+    out.append('theorem pagerank_centrality_model {n : Nat} (A : QMat n) (d : Rat) (f : Option (Vector Int n)) (hn : 0 < n) (o : PrOut n)\n'
+               '    (h : pagerank A d f = .ok o) : run o.r0 ir_pagerank_centrality (embA A) d (f.map embI) = some o.r :=\n'
+               '  link_pagerank_model _ pagerank_centrality_ok A d f hn o h\n')
+    if rm is not None:
+        fm = rm.fields or {k: ('99' if k in MFPT_NUM else q('?')) for k in MFPT_FIELDS}
+        relm = os.path.basename(rm.file)
+        a, b = rm.parts.get('body', (rm.line, rm.line))
+        for p in rm.problems:
+            out.append('-- NOT RECOGNISED: ' + p.replace('\n', ' '))
+        out.append('/-- `mean_first_passage_time` (%s:%d) -/' % (relm, rm.line))
+        out.append('def ir_mean_first_passage_time : MfptIR :=\n  { recognised := %s, origins := %s,\n    %s }\n'
+                   % ('true' if not rm.problems else 'false', lean_origins(rm), ', '.join('%s := %s' % (k, fm[k]) for k in MFPT_FIELDS)))
+        out.append('theorem mean_first_passage_time_ok : mfptOk ir_mean_first_passage_time = true := by\n  first | decide | fail '
+                   '"mean_first_passage_time_ok: the statements extracted from mean_first_passage_time (%s:%d-%d) %s"\n'
+                   % (relm, a, b, 'were not all recognised by translate/cores.py' if rm.problems else 'are not the expected program'))
+        out.append('theorem mean_first_passage_time_model {n : Nat} (W : QMat n) (o : MfptOut n) (h : mfpt W = .ok o)\n'
+                   '    (Xp : QMat n) (hX : ∀ i j, rowSum W i * Xp.get i j = W.get i j) (Dv : Vector Rat n) (Vm : QMat n) (k : Fin n)\n'
+                   '    (hsel : ∀ (a : Rat) (as : List Rat), (List.finRange n).map (fun i => absQ (Dv[i] - 1)) = a :: as →\n'
+                   '      ((List.finRange n).filter fun i => absQ (Dv[i] - 1) == as.foldl (fun x y => if y < x then y else x) a) = [k])\n'
+                   '    (htol : ¬ (1 : Rat) / 100 < absQ (Dv[k] - 1))\n'
+                   '    (hs : ((List.finRange n).map fun i => Vm.get i k).sum ≠ 0)\n'
+                   '    (hw : ∀ j : Fin n, Vm.get j k / ((List.finRange n).map fun i => Vm.get i k).sum = o.w[j]) :\n'
+                   '    runMfpt ir_mean_first_passage_time W Xp Dv Vm o.Z = some o.M :=\n'
+                   '  link_mfpt_model _ mean_first_passage_time_ok W o h Xp hX Dv Vm k hsel htol hs hw\n')
+    out.append('end Bct.Gen.CoresWalks')
+    return '\n'.join(out) + '\n'
+
+
+def family_walks():
+    path = os.path.join(common.REPO, 'bct', 'algorithms', 'centrality.py')
+    fns, err = parse_functions(path)
+    name = 'pagerank_centrality'
+    if name not in fns:
+        r = Routine(name, path); r.problems.append('%s: %s' % (name, err or 'function not found in ' + path))
+    else:
+        try:
+            r = extract_pagerank(fns[name], path)
+            check_header(r, fns[name], fns)
+        except Exception as e:  # noqa — an extractor crash must not look like success
+            r = Routine(name, path); r.problems.append('%s: extractor raised %s: %s' % (name, type(e).__name__, e))
+    path2 = os.path.join(common.REPO, 'bct', 'algorithms', 'distance.py')
+    fns2, err2 = parse_functions(path2)
+    name2 = 'mean_first_passage_time'
+    if name2 not in fns2:
+        rm = Routine(name2, path2); rm.problems.append('%s: %s' % (name2, err2 or 'function not found in ' + path2))
+    else:
+        try:
+            rm = extract_mfpt(fns2[name2], path2)
+            check_header(rm, fns2[name2], fns2)
+        except Exception as e:  # noqa — an extractor crash must not look like success
+            rm = Routine(name2, path2); rm.problems.append('%s: extractor raised %s: %s' % (name2, type(e).__name__, e))
+    return {'module': 'BctVerif.Gen.CoresWalks', 'file': 'CoresWalks.lean', 'text': lean_walks(r, path, rm), 'sources': [path, path2],
+            'routines': {r.name: dict(getattr(r, 'counts', {}), line=r.line, recognised=not r.problems),
+                         rm.name: dict(getattr(rm, 'counts', {}), line=rm.line, recognised=not rm.problems)},
+            'problems': list(r.problems) + list(rm.problems)}
 
 
 # ====================================================================== entry points
 
-FAMILIES = {'floyd': family_floyd, 'peel': family_peel, 'util': family_util, 'comp': family_comp, 'dijk': family_dijk, 'path': family_path, 'bin': family_bin, 'bfs': family_bfs, 'reach': family_reach, 'betw': family_betw}
+FAMILIES = {'floyd': family_floyd, 'peel': family_peel, 'util': family_util, 'comp': family_comp, 'dijk': family_dijk, 'path': family_path, 'bin': family_bin, 'bfs': family_bfs, 'reach': family_reach, 'betw': family_betw, 'clust': family_clust, 'char': family_char, 'eff': family_eff, 'walks': family_walks}
 
 
 def write_if_changed(path, text):
